@@ -347,6 +347,10 @@ pub fn run(text: &str, cases_path: &str, out: &mut impl Write) {
         if line.is_empty() || line.starts_with('#') {
             continue;
         }
-        rt.block_on(run_case(line, &base, out));
+        if line.contains(" mode=server ") {
+            rt.block_on(crate::c07s::run_case(line, &base, out));
+        } else {
+            rt.block_on(run_case(line, &base, out));
+        }
     }
 }
